@@ -102,44 +102,39 @@ theorem keysSorted_nodup (ks : List Bytes) (h : Spec.keysSorted ks = true) : ks.
     rw [keyLt_irrefl] at this
     exact Bool.false_ne_true this
 
-/-- a well-formed document within the implementation's count limit is covered by the round-trip theorem -/
-theorem covered_of_wf (j : Spec.Json) : j.wf = true → countsOK j = true → covered j = true := by
+/-- every well-formed document is covered by the round-trip theorem -/
+theorem covered_of_wf (j : Spec.Json) : j.wf = true → covered j = true := by
   refine Spec.Json.rec
-    (motive_1 := fun j => j.wf = true → countsOK j = true → covered j = true)
-    (motive_2 := fun xs => Spec.wfList xs = true → countsOKList xs = true → coveredList xs = true)
-    (motive_3 := fun kvs => Spec.wfKvs kvs = true → countsOKKvs kvs = true → coveredKvs kvs = true)
-    (motive_4 := fun p => p.2.wf = true → countsOK p.2 = true → covered p.2 = true)
+    (motive_1 := fun j => j.wf = true → covered j = true)
+    (motive_2 := fun xs => Spec.wfList xs = true → coveredList xs = true)
+    (motive_3 := fun kvs => Spec.wfKvs kvs = true → coveredKvs kvs = true)
+    (motive_4 := fun p => p.2.wf = true → covered p.2 = true)
     ?_ ?_ ?_ ?_ ?_ ?_ ?_ ?_ ?_ ?_ ?_ j
-  · intro _ _; rfl
-  · intro b _ _; rfl
-  · intro n l h _
+  · intro _; rfl
+  · intro b _; rfl
+  · intro n l h
     simp only [Spec.Json.wf] at h
     simp only [covered, h]
-  · intro s _ _; rfl
-  · intro xs ih h c
+  · intro s _; rfl
+  · intro xs ih h
     simp only [Spec.Json.wf] at h
-    simp only [countsOK, Bool.and_eq_true] at c
-    simp only [covered, Bool.and_eq_true]
-    exact ⟨c.1, ih h c.2⟩
-  · intro kvs ih h c
+    simp only [covered]
+    exact ih h
+  · intro kvs ih h
     simp only [Spec.Json.wf, Bool.and_eq_true] at h
-    simp only [countsOK, Bool.and_eq_true] at c
     simp only [covered, Bool.and_eq_true, decide_eq_true_eq]
-    have := keysSorted_nodup _ h.1
-    exact ⟨⟨by simpa using c.1, this⟩, ih h.2 c.2⟩
-  · intro _ _; rfl
-  · intro x xs ihx ihxs h c
+    exact ⟨keysSorted_nodup _ h.1, ih h.2⟩
+  · intro _; rfl
+  · intro x xs ihx ihxs h
     simp only [Spec.wfList, Bool.and_eq_true] at h
-    simp only [countsOKList, Bool.and_eq_true] at c
     simp only [coveredList, Bool.and_eq_true]
-    exact ⟨ihx h.1 c.1, ihxs h.2 c.2⟩
-  · intro _ _; rfl
-  · intro p ps ihp ihps h c
+    exact ⟨ihx h.1, ihxs h.2⟩
+  · intro _; rfl
+  · intro p ps ihp ihps h
     obtain ⟨k, v⟩ := p
     simp only [Spec.wfKvs, Bool.and_eq_true] at h
-    simp only [countsOKKvs, Bool.and_eq_true] at c
     simp only [coveredKvs, Bool.and_eq_true]
-    exact ⟨ihp h.1.2 c.1, ihps h.2 c.2⟩
+    exact ⟨ihp h.1.2, ihps h.2⟩
   · intro k v ih; exact ih
 
 end PgVerif.Proofs
